@@ -137,11 +137,17 @@ func (c *lruCache) Peek(key []byte) (value interface{}, ok bool) {
 func (c *lruCache) HasOrAdd(key []byte, value interface{}, sizeInBytes int) (has, added bool) {
 	has, _ = c.cache.AddSizedIfMissing(string(key), value, int64(sizeInBytes))
 
-	if !has {
-		c.callAddedDataHandlers(key, value)
+	if has {
+		return true, false
+	}
+	if !c.cache.Contains(string(key)) {
+		// the item was rejected (e.g. negative size)
+		return false, false
 	}
 
-	return has, !has
+	c.callAddedDataHandlers(key, value)
+
+	return false, true
 }
 
 func (c *lruCache) callAddedDataHandlers(key []byte, value interface{}) {
